@@ -69,7 +69,7 @@ def Reach (ip : Nat) (locs ops g : Array Value) (l : Value) (ip' : Nat) (ops' : 
 def Returns (ip : Nat) (locs ops g : Array Value) (l : Value) (v : SVal) (st st' : SState) : Prop :=
   ∀ fr0 rest, fr = fr0 :: rest → ∃ mv g' l' n, VR W.ft W.Γp v mv ∧
     execN W.C n (mkS W.s0 ip below locs ops g l fr) =
-      some { W.s0 with ip := fr0.ip, stack := below.push mv, globals := g', last := l', frames := rest, bp := fr0.bp } ∧
+      some { W.s0 with ip := fr0.ip, stack := below.push mv, globals := g', last := l', frames := rest, depth := rest.length, bp := fr0.bp } ∧
     RelG W Γb st' g' ∧ VR W.ft W.Γp st'.last l' ∧ st'.out = st.out
 
 def GoalV (fn ab : Bool) (lp : LoopCtx) (pos : Nat) (locs ops g : Array Value) (l : Value) (endIp : Nat) (base : Array Value)
